@@ -308,11 +308,34 @@ func ruleEngineStep(c *Ctx, rule string) {
 			// a call of a function value taking the interpreter
 			return len(call.Call.Args) >= 1 && strings.Contains(types.TypeString(call.Call.Args[0].Type(), nil), "Interpreter")
 		}
+		// the out-of-gas test: a comparison of the (signed) gas counter with a constant whose solution set is exactly
+		// {g : g < 1}, in either polarity and either operand order (g < 1, g <= 0, !(g >= 1), !(g > 0), …)
+		isGasLoad := func(v ssa.Value) bool {
+			u, ok := stripIntConv(v).(*ssa.UnOp)
+			if !ok || u.Op != token.MUL {
+				return false
+			}
+			fa, ok := u.X.(*ssa.FieldAddr)
+			return ok && structField(fa.X.Type(), fa.Field) == gasField
+		}
 		lowTest := func(v ssa.Value) (bool, bool) {
-			switch exprStr(v, shapeOpts) {
-			case "(p0.Gas < 1)":
+			b, ok := v.(*ssa.BinOp)
+			if !ok {
+				return false, false
+			}
+			op, x, y := b.Op, b.X, b.Y
+			if isGasLoad(y) {
+				x, y = y, x
+				op = map[token.Token]token.Token{token.LSS: token.GTR, token.GTR: token.LSS, token.LEQ: token.GEQ, token.GEQ: token.LEQ, token.EQL: token.EQL, token.NEQ: token.NEQ}[op]
+			}
+			k, isC := constInt(y)
+			if !isGasLoad(x) || !isC || isUnsignedT(x.Type()) {
+				return false, false
+			}
+			switch {
+			case op == token.LSS && k == 1, op == token.LEQ && k == 0:
 				return true, true
-			case "(1 <= p0.Gas)":
+			case op == token.GEQ && k == 1, op == token.GTR && k == 0:
 				return true, false
 			}
 			return false, false
@@ -415,7 +438,7 @@ func ruleEngineStep(c *Ctx, rule string) {
 				c.Check(guardedBy(f, in, notLow), rule, key+" · dispatch guarded", in.Pos(), "dispatch only on the Gas >= 1 edge", "an instruction can be dispatched without passing the Gas < 1 test")
 				// a decrement between the (last) test edge and the dispatch, on every path (with a charge helper the decrement precedes its success edge)
 				skip := false
-				if chargeHelper == nil {
+				if chargeHelper == nil && len(notLow) > 0 {
 					_, skip = findPath(pathQuery{startEdges: notLow, target: func(x ssa.Instruction) bool { return x == in }, blocker: isGasStore})
 				}
 				c.Check(!skip && len(notLow) > 0, rule, key+" · charged before dispatch", in.Pos(), "every path from the gas test to the dispatch decrements Gas", "an instruction can be dispatched without being charged")
